@@ -91,11 +91,12 @@ fn scan_case(s: &str) -> String {
             format!("[{},{}", p, &j[1..])
         })
         .collect();
+    let ls: Vec<String> = lines.iter().map(|l| l.to_string()).collect();
     format!(
-        "{{\"toks\":[{}],\"err\":{},\"lines\":{:?}}}",
+        "{{\"toks\":[{}],\"err\":{},\"lines\":[{}]}}",
         ts.join(","),
         err.as_ref().map(err_json).unwrap_or("null".into()),
-        lines
+        ls.join(",")
     )
 }
 
@@ -113,10 +114,9 @@ fn json_case(s: &str) -> String {
                     let da = format!("{:?}", f);
                     let db = format!("{:?}", g);
                     format!(
-                        "{{\"rt\":\"done\",\"same_json\":{},\"same_debug\":{},\"debug_len\":{}}}",
+                        "{{\"rt\":\"done\",\"same_json\":{},\"same_debug\":{}}}",
                         a == b,
-                        da == db,
-                        da.len()
+                        da == db
                     )
                 }
             }
